@@ -260,10 +260,69 @@ def run_sql_semantics(reqs):
     return out
 
 
+# ------------------------------------------------------------------------------------------------ SetData histories (tie of Model/C23Load.v)
+
+def run_coll_history(h):
+    """One owner (student 1) and its `courses` collection.  h = {"regime", "courses": n, "rows": [course indexes linked to student 1],
+    "others": [[student id, [course indexes]]], "preload": "none"|"partial"|"full", "ops": [[op, arg?]]}
+    ops: len | iter | count | is_empty | contains i | add i | remove i | add_rev i | remove_rev i | flush | other_len sid
+    After every op: result, link rows of the owner (raw cursor: no flush), the SetData fields of the owner's collection."""
+    regime = h['regime']
+    db = get_db(regime)
+    n = h['courses']
+    with orm.db_session:
+        cs = [db.C(name='c%d' % i, sem=1, title='') for i in range(n)]
+        s1 = db.S(id=1, name='s1')
+        for i in h['rows']: s1.courses.add(cs[i])
+        for sid, idx in h['others']:
+            so = db.S(id=sid, name='s%d' % sid)
+            for i in idx: so.courses.add(cs[i])
+    out = []
+    with orm.db_session:
+        con = db.get_connection()
+        allc = {c.name: c for c in db.C.select()[:]}          # every course is in the identity map: operands need no SQL
+        cobj = [allc['c%d' % i] for i in range(n)]
+        others = {x.id: x for x in db.S.select(lambda x: x.id != 1)[:]}
+        s = db.S.get(id=1)
+        if h['preload'] == 'full': list(s.courses)
+        elif h['preload'] == 'partial' and n: cobj[0] in s.courses
+        attr = db.S.courses
+        def snap():
+            sd = s._vals_.get(attr)
+            rows = sorted(int(r[0][1:]) for r in con.execute('select c_name from C_S where s = 1').fetchall())
+            if sd is None: return rows, None
+            ix = lambda xs: sorted(int(c.name[1:]) for c in xs)
+            return rows, {'items': ix(sd), 'full': bool(sd.is_fully_loaded), 'added': ix(sd.added or ()), 'removed': ix(sd.removed or ()),
+                          'absent': None if sd.absent is None else ix(sd.absent), 'count': sd.count}
+        for op in h['ops']:
+            before = snap()
+            try:
+                k = op[0]
+                if k == 'len': r = len(s.courses)
+                elif k == 'iter': r = sorted(int(c.name[1:]) for c in s.courses)
+                elif k == 'count': r = s.courses.count()
+                elif k == 'is_empty': r = s.courses.is_empty()
+                elif k == 'contains': r = cobj[op[1]] in s.courses
+                elif k == 'add': r = s.courses.add(cobj[op[1]])
+                elif k == 'remove': r = s.courses.remove(cobj[op[1]])
+                elif k == 'add_rev': r = cobj[op[1]].students.add(s)
+                elif k == 'remove_rev': r = cobj[op[1]].students.remove(s)
+                elif k == 'flush': r = orm.flush()
+                elif k == 'other_len': r = len(others[op[1]].courses) if op[1] in others else None
+                else: raise ValueError(k)
+                res = ['v', r]
+            except Exception as e:
+                res = ['exc', type(e).__name__]
+            after = snap()
+            out.append({'op': op, 'before': before, 'result': res, 'after': after})
+        orm.rollback()
+    return out
+
+
 def main():
     payload = json.load(sys.stdin)
     res = {'criteria': run_criteria(payload.get('criteria', [])), 'programs': run_programs(payload.get('programs', [])),
-           'sql': run_sql_semantics(payload.get('sql', []))}
+           'sql': run_sql_semantics(payload.get('sql', [])), 'colls': [run_coll_history(h) for h in payload.get('colls', [])]}
     sys.stdout.write('\n@@JSON@@' + json.dumps(res))
 
 
